@@ -167,14 +167,21 @@ def run(db: DB, rep: Report) -> None:
                 recv_ok, _ = output_tensor_expr(n.func.value, n, f)
                 # Partitioner.unpartition re-flags the (output) tensor it was given after reset
                 others.append((f, n, recv_ok))
+    def is_output(e: ast.AST, at: ast.AST, g: FuncInfo, depth: int = 0) -> bool:
+        if output_tensor_expr(e, at, g)[0]:
+            return True
+        if depth < 4 and isinstance(e, ast.Name) and e.id in g.call_params and \
+                not [1 for st, _ in paths.defs_of(g.node, e.id)]:
+            # a parameter (never re-assigned): every caller passes the output tensor
+            idx = g.call_params.index(e.id)
+            cs = db.callers().get(g.qualname, [])
+            return bool(cs) and all(idx < len(c.args) and is_output(c.args[idx], c, h, depth + 1)
+                                    for h, c in cs)
+        return False
     for f, n, recv_ok in others:
-        callers_ok = recv_ok
-        if not recv_ok and isinstance(n.func.value, ast.Name) and n.func.value.id in f.params:
-            # parameter: every caller passes the output tensor
-            idx = f.call_params.index(n.func.value.id)
-            cs = db.callers().get(f.qualname, [])
-            callers_ok = bool(cs) and all(
-                idx < len(c.args) and output_tensor_expr(c.args[idx], c, g)[0] for g, c in cs)
+        callers_ok = recv_ok or is_output(n.func.value, n, f)
+        if False:
+            pass
         rep.check("W0", callers_ok, db.loc(n), f.short, "set_is_output(True)@" + f.short,
                   "%s flags a tensor as output; it is the output tensor" % f.short,
                   "%s marks a tensor as the output that is not known to be the Einsum's output tensor; "
